@@ -140,6 +140,41 @@ def run(ctx):
             ctx.case(("unknown-mode", repr(mode)[:30], a, b, c, d))
             if not (o[0] == "err" and o[1] in ("ValueError", "TypeError")):
                 ctx.violation(mode=repr(mode)[:60], args=[a, b, c, d], observed=show(o)[:200], required="ValueError/TypeError (unknown mode)")
+    # members that are not time values but compare equal to one and hash alike (NumPy's datetime64 / timedelta64, an impostor object):
+    # first the genuine value is used (whatever that leaves behind in the process), then the look-alike in the same place - every
+    # constructor refuses it as it refuses any other object
+    import numpy as _np
+
+    class Impostor:
+        def __init__(self, v): self.v = v
+        def __eq__(self, o): return o == self.v if not isinstance(o, Impostor) else self.v == o.v
+        def __hash__(self): return hash(self.v)
+        def __repr__(self): return f"Impostor({self.v!r})"
+    sec, stamp = dt.timedelta(seconds=1), dt.datetime(2025, 1, 1)
+    stamp_utc = dt.datetime(2025, 1, 1, tzinfo=dt.timezone.utc)
+    alike = {"interval": [(sec, _np.timedelta64(1, "s")), (sec, Impostor(sec)), (dt.timedelta(0), _np.timedelta64(0, "s")), (dt.timedelta(0), 0), (dt.timedelta(0), Impostor(dt.timedelta(0)))],
+             "stamp": [(stamp, _np.datetime64("2025-01-01T00:00:00")), (stamp, Impostor(stamp)), (stamp_utc, Impostor(stamp_utc))]}
+    makers = [("create_with_regular_interval(interval)", "interval", lambda v: Timing.create_with_regular_interval(v)),
+              ("create_with_regular_interval(interval, timestamp)", "stamp", lambda v: Timing.create_with_regular_interval(sec, v)),
+              ("create_with_regular_interval(interval, timestamp, offset)", "interval", lambda v: Timing.create_with_regular_interval(sec, stamp_utc, v)),
+              ("create_with_no_interval(timestamp)", "stamp", lambda v: Timing.create_with_no_interval(v)),
+              ("create_with_no_interval(timestamp, offset)", "interval", lambda v: Timing.create_with_no_interval(stamp_utc, v)),
+              ("create_with_irregular_interval([timestamp])", "stamp", lambda v: Timing.create_with_irregular_interval([v])),
+              ("Timing(REGULAR, sample_interval=)", "interval", lambda v: Timing(SampleIntervalMode.REGULAR, sample_interval=v)),
+              ("Timing(NONE, timestamp=)", "stamp", lambda v: Timing(SampleIntervalMode.NONE, timestamp=v))]
+    for label, slot, mk in makers:
+        for genuine, fake in alike[slot]:
+            for warm in (True, False):
+                if warm:
+                    g = outcome(mk, genuine)
+                    if g[0] != "ok":
+                        ctx.violation(what="a genuine member was refused", constructor=label, value=repr(genuine), observed=show(g)[:120], required="a Timing")
+                        continue
+                o = outcome(mk, fake)
+                ctx.case(("look-alike member", label, repr(fake)[:40], warm))
+                if not (o[0] == "err" and o[1] in ("TypeError", "ValueError")):
+                    ctx.violation(what="a member that only LOOKS like a time value (equal to one, same hash) was accepted", constructor=label, member=repr(fake)[:60],
+                                  after_the_genuine_value_was_used=warm, observed=show(o)[:160], required="TypeError")
     # the verdict depends on the kinds of the members only, never on their values: the same matrix with other
     # representatives - bintime instants outside the years 1..9999 (valid 128-bit timestamps whose text form does not
     # exist), extreme timedeltas, objects that cannot be printed, long sequences
